@@ -218,6 +218,9 @@ def g_mask(draw, tier):
     c = draw(dense(tier, min_order=1))
     n = ref.prod(c["shape"])
     c["w"] = draw(st.lists(st.sampled_from([0.0, 1.0]), min_size=n, max_size=n))
+    whole = draw(st.sampled_from([None, None, None, 1.0, 0.0]))
+    if whole is not None:
+        c["w"] = [whole] * n  # every entry / no entry selected
     return c
 
 
@@ -400,7 +403,7 @@ def g_ttv(draw, tier):
     else:
         c["d"] = R.d_dims(draw, n, allow_none=True)
     c["full"] = draw(st.booleans())
-    c["vecs"] = [R.d_vals(draw, s, c["vkind"]) for s in c["shape"]]
+    c["vecs"] = R.d_vecs(draw, c["shape"], c["vkind"])
     return c
 
 
@@ -416,6 +419,8 @@ def ttv_args(ctx, c, shape):
         V = R.multiplicands(c["d"], n, per_mode, c["full"])
         ctx.label("vector-list-" + c["d"]["how"])
     used = R.dims_used(c["d"], n)
+    if all(sorted(v) == [0.0] * (len(v) - 1) + [1.0] for v in c["vecs"]):
+        ctx.label("unit-vectors")
     ctx.label("all-modes" if len(used) == n else ("one-mode" if len(used) == 1 else "some-modes"))
     ops["vector"] = V
     return ops, V, kw
@@ -729,8 +734,19 @@ def g_key(draw, shape, allow_neg=True, max_lists=1):
     """A key for __getitem__/__setitem__: dict(kind, ...)."""
     n = len(shape)
     total = ref.prod(shape)
-    kind = draw(st.sampled_from(["lin-int", "lin-slice", "lin-arr", "lin-arr", "lin-list", "subs", "region", "region"]))
+    kind = draw(st.sampled_from(["lin-int", "lin-slice", "lin-arr", "lin-arr", "lin-list", "subs", "region", "region",
+                                 "region", "empty"]))
     lo = -total if allow_neg else 0
+    if kind == "empty":
+        # (round 3, class 10) requests that address nothing: an empty index array, an empty subscript array, an empty
+        # linear slice - a read returns an empty object, a write is a no-op
+        e = draw(st.sampled_from(["lin-arr", "lin-list", "subs", "lin-slice"]))
+        if e == "subs":
+            return dict(kind="subs", v=[], n=n)
+        if e == "lin-slice":
+            a = draw(st.integers(0, total))
+            return dict(kind=e, v=[a, a, None])
+        return dict(kind=e, v=[], has_negative=False)
     if kind == "lin-int":
         return dict(kind=kind, v=draw(st.integers(lo, total - 1)))
     if kind == "lin-slice":
@@ -752,13 +768,19 @@ def g_key(draw, shape, allow_neg=True, max_lists=1):
     ents = []
     lists = 0
     for s in shape:
-        t = draw(st.sampled_from(["int", "slice", "full", "list", "arr"]))
+        t = draw(st.sampled_from(["int", "slice", "full", "list", "arr", "slice", "full", "empty", "step"]))
         if t in ("list", "arr") and lists >= max_lists:
             t = "slice"
         if t == "int":
             ents.append(dict(t="int", v=draw(st.integers(-s if allow_neg else 0, s - 1))))
         elif t == "full":
             ents.append(dict(t="slice", v=[None, None, None]))
+        elif t == "empty":
+            # (round 3, class 10) an empty range in this mode: ``:0``, ``k:k``, ``s:``
+            a = draw(st.integers(0, s))
+            ents.append(dict(t="slice", v=draw(st.sampled_from([[None, 0, None], [a, a, None], [s, None, None]]))))
+        elif t == "step":
+            ents.append(dict(t="slice", v=draw(st.sampled_from([[None, None, 2], [None, None, -1], [1, None, 2], [None, None, s + 1]]))))
         elif t == "slice":
             a = draw(st.integers(0, s - 1))
             b = draw(st.integers(a + 1, s))
@@ -779,10 +801,12 @@ def build_key(k):
     if kind == "lin-slice":
         return slice(*k["v"]), kind
     if kind == "lin-arr":
-        return np.array(k["v"], dtype=int), kind + ("-negative" if k.get("has_negative") else "")
+        return np.array(k["v"], dtype=int), kind + ("-negative" if k.get("has_negative") else "") + ("" if k["v"] else "-empty")
     if kind == "lin-list":
         return [int(x) for x in k["v"]], kind
     if kind == "subs":
+        if not k["v"]:
+            return np.zeros((0, k.get("n", 1)), dtype=int), "subs-empty"
         return np.array(k["v"], dtype=int).reshape(len(k["v"]), -1), kind
     ents = []
     for e in k["v"]:
@@ -795,6 +819,10 @@ def build_key(k):
         else:
             ents.append(np.array(e["v"], dtype=int))
     full = all(e["t"] == "slice" and e["v"] == [None, None, None] for e in k["v"])
+    if not full and any(e["t"] == "slice" and e["v"][2] is None and e["v"] != [None, None, None] and
+                        (e["v"][1] == 0 or (e["v"][0] is not None and e["v"][0] == e["v"][1]) or e["v"][1] is None)
+                        for e in k["v"]):
+        return tuple(ents), "region-empty"
     return tuple(ents), "region-full" if full else "region"
 
 
